@@ -832,6 +832,9 @@ fn export_inline(text: &str, kind: &str) -> String {
 }
 
 impl Check for C09 {
+    fn fuzz_runs(&self) -> u64 {
+        10000
+    }
     fn id(&self) -> &'static str {
         "C09"
     }
